@@ -31,16 +31,16 @@ type LeanQ struct {
 }
 
 type Record struct {
-	I      int                    `json:"i"`
-	Text   string                 `json:"text,omitempty"`
-	Doc    string                 `json:"doc,omitempty"`
-	Info   map[string]interface{} `json:"info,omitempty"`
-	Viol   string                 `json:"viol,omitempty"`  // the real code contradicts the property
-	Class  string                 `json:"class,omitempty"` // finding class (matches known_findings)
-	Q      []LeanQ                `json:"q,omitempty"`
-	Key    string                 `json:"key,omitempty"` // distinctness key; empty: trivial case
-	Tags   []string               `json:"tags,omitempty"`
-	Fatal  string                 `json:"fatal,omitempty"`
+	I     int                    `json:"i"`
+	Text  string                 `json:"text,omitempty"`
+	Doc   string                 `json:"doc,omitempty"`
+	Info  map[string]interface{} `json:"info,omitempty"`
+	Viol  string                 `json:"viol,omitempty"`  // the real code contradicts the property
+	Class string                 `json:"class,omitempty"` // finding class (matches known_findings)
+	Q     []LeanQ                `json:"q,omitempty"`
+	Key   string                 `json:"key,omitempty"` // distinctness key; empty: trivial case
+	Tags  []string               `json:"tags,omitempty"`
+	Fatal string                 `json:"fatal,omitempty"`
 }
 
 var Props = map[string]Prop{}
@@ -130,17 +130,17 @@ type Finding struct {
 }
 
 type Summary struct {
-	Property   string                 `json:"property"`
-	Seed       int64                  `json:"seed"`
-	Tier       string                 `json:"tier"`
-	Evals      int                    `json:"evaluations"`
-	Distinct   int                    `json:"distinct_nontrivial"`
-	LeanAsked  int                    `json:"lean_queries"`
-	Findings   []Finding              `json:"findings"`
-	Dist       map[string]int         `json:"distribution"`
-	Samples    []interface{}          `json:"samples"`
-	WallS      float64                `json:"wall_s"`
-	Extra      map[string]interface{} `json:"extra,omitempty"`
+	Property  string                 `json:"property"`
+	Seed      int64                  `json:"seed"`
+	Tier      string                 `json:"tier"`
+	Evals     int                    `json:"evaluations"`
+	Distinct  int                    `json:"distinct_nontrivial"`
+	LeanAsked int                    `json:"lean_queries"`
+	Findings  []Finding              `json:"findings"`
+	Dist      map[string]int         `json:"distribution"`
+	Samples   []interface{}          `json:"samples"`
+	WallS     float64                `json:"wall_s"`
+	Extra     map[string]interface{} `json:"extra,omitempty"`
 }
 
 type RunOpts struct {
@@ -148,6 +148,7 @@ type RunOpts struct {
 	Seed      int64
 	Tier      string
 	N         int
+	From      int
 	SpecExe   string
 	ImplExe   string
 	ReplayDir string
@@ -185,12 +186,12 @@ func RunParent(o RunOpts) Summary {
 		o.MaxFind = 5
 	}
 	type chunk struct{ from, to int }
-	per := (o.N + o.Workers - 1) / o.Workers
+	per := (o.N - o.From + o.Workers - 1) / o.Workers
 	if per < 1 {
 		per = 1
 	}
 	var chunks []chunk
-	for f := 0; f < o.N; f += per {
+	for f := o.From; f < o.N; f += per {
 		t := f + per
 		if t > o.N {
 			t = o.N
